@@ -177,6 +177,10 @@ pub struct ProcSpec {
     pub crash_at: Option<u32>,
     #[serde(default)]
     pub capture_reads: bool,
+    /// working directory of the simulated process (its thread leaves the harness' file-system
+    /// context with unshare(CLONE_FS) first, so this is per simulated process)
+    #[serde(default)]
+    pub cwd: Option<String>,
 }
 
 #[derive(Clone, Debug, PartialEq, serde::Serialize)]
@@ -243,6 +247,7 @@ pub fn run_process<T: Send + 'static>(
     ctx.crash_at = spec.crash_at;
     ctx.capture_reads = spec.capture_reads;
     let abandoned = ctx.abandoned.clone();
+    let cwd = spec.cwd.clone();
     let gate_for_exit = gate.clone();
     if let Some((g, pid)) = gate {
         ctx.gate = Some(g);
@@ -254,6 +259,14 @@ pub fn run_process<T: Send + 'static>(
         .stack_size(8 * 1024 * 1024);
     let handle = builder
         .spawn(move || {
+            if let Some(dir) = &cwd {
+                let c = std::ffi::CString::new(dir.as_str()).unwrap();
+                let ok = unsafe { libc::unshare(libc::CLONE_FS) == 0 && libc::chdir(c.as_ptr()) == 0 };
+                if !ok {
+                    let _ = tx.send((Ok(Err(anyhow::anyhow!("HARNESS: cannot give the simulated process its own working directory"))), Box::new(SimCtx::new("", 0, 0))));
+                    return;
+                }
+            }
             let guard = shim::install(ctx);
             let r = std::panic::catch_unwind(std::panic::AssertUnwindSafe(f));
             let ctx = guard.take();
